@@ -377,8 +377,9 @@ class C18:
         # only while the simulation's own handler is installed (`with sim:`), i.e. from the first measurement on
         first = min(i for i, e in enumerate(raw) if e['ev'] and e['ev'].get('op') == 'marker' and
                     e['ev']['text'].split()[0] in ('meas', 'alg', 'ckpt'))
+        last = max(i for i, e in enumerate(raw) if e['ev'] and e['ev'].get('op') == 'marker' and e['ev']['text'] == 'done')
         return [self.make_plan(wl, fmt, [dict(mode='run', f=None, raw_idx=i, sig='INT')], 'sigint')
-                for i in range(first, len(raw), stride)]
+                for i in range(first, last, stride)]
 
     def run_plans(self, plans):
         t0 = time.time()
@@ -412,7 +413,8 @@ class C18:
             accs = acc_units(ref['summary'], summ, ks)
             k = fin['proj']['out'].get('k')
             tr[-1] = dict(op='done', k=-1 if k is None else k, ks=ks, accs=accs)
-        return tr
+        # a `done` that is not the end of the execution has no results attached: TLC will reject the trace there
+        return [dict(e, k=-1, ks=[], accs=[]) if e['op'] == 'done' and 'ks' not in e else e for e in tr]
 
     def stage_validate(self):
         ctx = self.ctx
